@@ -768,13 +768,17 @@ func c11UploadThroughGate(c *Ctx) {
 					through = true
 				}
 			}
+			if entryFoundAt(b, 0) {
+				through = true // the key version already has a manifest entry
+			}
+			// nothing to upload: the certificate handed in is nil
 			for _, cf := range dominatingConds(b) {
 				bo, isB := cf.Cond.(*ssa.BinOp)
-				if !isB || !isNilK(bo.Y) || (bo.Op == token.NEQ) != cf.Val {
+				if !isB || !isNilK(bo.Y) || (bo.Op == token.EQL) != cf.Val {
 					continue
 				}
-				if call, isCall := bo.X.(*ssa.Call); isCall && typeMentions(call, repoPath("proto/certificates"), "GCECertificateManifest_Entry") {
-					through = true // the key version already has a manifest entry
+				if prm, isP := bo.X.(*ssa.Parameter); isP && namedIs(prm.Type(), "crypto/x509", "Certificate") {
+					through = true
 				}
 			}
 			if !through {
@@ -784,4 +788,47 @@ func c11UploadThroughGate(c *Ctx) {
 		c.S.Check(ok, "R11", load.FuncName(f)+":success only through the upload gate", c.pos(at), "a nil error is returned only behind the gate call or for a key version that already has a manifest entry", "the upload can report success without having gone through the no-clobber gate and without the key version having a manifest entry: the caller records the key in the manifest although no certificate was stored for it")
 	}
 	c.S.Floor("R11", "upload functions around the no-clobber gate in sign/gcsca", 1, n)
+}
+
+
+// entryFoundAt: block b is reached only where a manifest entry was found for the key version: behind the non-nil edge
+// of a lookup returning a manifest entry, or behind the true edge of a flag that a helper of the package returns as true
+// only behind such an edge (certObjectFor(...) (name string, inManifest bool)).
+func entryFoundAt(b *ssa.BasicBlock, depth int) bool {
+	for _, cf := range dominatingConds(b) {
+		if bo, isB := cf.Cond.(*ssa.BinOp); isB && isNilK(bo.Y) && (bo.Op == token.NEQ) == cf.Val {
+			if call, isCall := bo.X.(*ssa.Call); isCall && typeMentions(call, repoPath("proto/certificates"), "GCECertificateManifest_Entry") {
+				return true
+			}
+		}
+		if ex, isEx := cf.Cond.(*ssa.Extract); isEx && cf.Val && depth < 2 {
+			hc, isCall := ex.Tuple.(*ssa.Call)
+			if !isCall {
+				continue
+			}
+			h := hc.Call.StaticCallee()
+			if h == nil || h.Blocks == nil || load.RelPkg(h) != "sign/gcsca" {
+				continue
+			}
+			all, n := true, 0
+			for _, hb := range h.Blocks {
+				ret, isRet := hb.Instrs[len(hb.Instrs)-1].(*ssa.Return)
+				if !isRet || ex.Index >= len(ret.Results) {
+					continue
+				}
+				k, isK := ret.Results[ex.Index].(*ssa.Const)
+				if isK && k.Value != nil && !constant.BoolVal(k.Value) {
+					continue
+				}
+				n++
+				if !entryFoundAt(hb, depth+1) {
+					all = false
+				}
+			}
+			if all && n > 0 {
+				return true
+			}
+		}
+	}
+	return false
 }
